@@ -4,7 +4,7 @@
    recorded findings. *)
 From Coq Require Import List ZArith Bool String Lia ZifyBool ZifyNat.
 From LW Require Import Base.Outcome Band.Channels Band.ChannelsSpec Band.Planner Band.PlannerSpec Band.CrossLayer
-  Band.ListLemmas Band.PlannerProofs Band.PlannerUSProofs Band.ChannelsProofs Band.CrossLayerProofs Band.ChannelsGenProofs.
+  Band.ListLemmas Band.PlannerProofs Band.PlannerUSProofs Band.PlannerKnown Band.ChannelsProofs Band.CrossLayerProofs Band.ChannelsGenProofs.
 From LWGen Require Import ChannelsGen KnownGen.
 Import ListNotations.
 Open Scope Z_scope.
@@ -27,47 +27,48 @@ Qed.
 
 Definition in_rangeP (n : Z) (dev : list Z) : Prop := forall c, In c dev -> 0 <= c < n.
 
-(* C14 for the bands that exist: any configuration, any history, any device list *)
+(* C14 for the bands that exist: any configuration, any history, ANY device list
+   (entries outside the plan included: they are dropped by the planner since the fix for
+   finding C14-4 and ignored by the apply functions) *)
 Theorem all_bands_sound nm rep dw s0 ops dev :
   In (nm, rep, dw, s0) configs ->
   let s := run s0 ops in
-  zlen (up s) <= 256 -> in_rangeP (zlen (up s)) dev ->
+  zlen (up s) <= 256 ->
   exists pls, plan (us_like nm) 16 s dev = Ok pls /\ apply (us_like nm) 16 s dev pls = Ok (target s dev).
 Proof.
-  intros Hin s Hn Hd. destruct (configs_spec nm rep dw s0 Hin) as [_ [HU _]].
+  intros Hin s Hn. destruct (configs_spec nm rep dw s0 Hin) as [_ [HU _]].
   unfold plan, apply. destruct (us_like nm) eqn:U.
   - destruct (HU eq_refl) as [HL X]. pose proof (us_layout_preserved s0 ops HL X) as HL'. fold s in HL'.
-    destruct (us_sound s dev HL') as [pls [E A]].
-    { intros c Hc. apply Hd in Hc. destruct HL' as [N _]. lia. }
+    destruct (us_sound_all s dev HL') as [pls [E A]].
     exists pls. split; [exact E|]. now rewrite (target_us s dev HL').
-  - apply (generic_sound 16 ltac:(lia) s dev Hn). intros c Hc. apply Hd in Hc. lia.
+  - apply (generic_sound_all 16 ltac:(lia) s dev Hn).
 Qed.
 
-Theorem all_bands_count nm s dev : in_rangeP (zlen (up s)) dev ->
+Theorem all_bands_count nm s dev :
   exists pls, plan (us_like nm) 16 s dev = Ok pls /\ Z.of_nat (List.length pls) <= blocks 16 (zlen (up s)).
 Proof.
-  intros Hd. unfold plan. destruct (us_like nm); [now apply us_count|]. apply generic_count; [lia|exact Hd].
+  unfold plan. destruct (us_like nm); [apply us_count_all|]. apply generic_count_all. lia.
 Qed.
 
 Theorem all_bands_noop nm s dev : same_set dev (target s dev) -> plan (us_like nm) 16 s dev = Ok [].
 Proof.
-  intros H. unfold plan. destruct (us_like nm); [now apply us_noop|now apply generic_noop].
+  intros H. unfold plan. destruct (us_like nm); [now apply us_noop_all|now apply generic_noop_all].
 Qed.
 
 Theorem all_bands_encodable nm rep dw s0 ops dev :
   In (nm, rep, dw, s0) configs ->
   let s := run s0 ops in
-  zlen (up s) <= 128 -> in_rangeP (zlen (up s)) dev ->
+  zlen (up s) <= 128 ->
   exists pls, plan (us_like nm) 16 s dev = Ok pls /\
     forall p, In p pls -> encodable p = true /\
       exists bs, linkadrreq_marshal p = Ok bs /\ linkadrreq_unmarshal bs = Ok p.
 Proof.
-  intros Hin s Hn Hd. destruct (configs_spec nm rep dw s0 Hin) as [_ [HU _]].
+  intros Hin s Hn. destruct (configs_spec nm rep dw s0 Hin) as [_ [HU _]].
   assert (X : exists pls, plan (us_like nm) 16 s dev = Ok pls /\ forallb encodable pls = true).
   { unfold plan. destruct (us_like nm) eqn:U.
     - destruct (HU eq_refl) as [HL X]. pose proof (us_layout_preserved s0 ops HL X) as HL'. fold s in HL'.
-      apply us_encodable; [exact HL'|]. intros c Hc. apply Hd in Hc. destruct HL' as [N _]. lia.
-    - apply generic_encodable; [exact Hn|]. intros c Hc. apply Hd in Hc. lia. }
+      now apply us_encodable_all.
+    - now apply generic_encodable_all. }
   destruct X as [pls [E F]]. exists pls. split; [exact E|]. intros p Hp.
   rewrite forallb_forall in F. specialize (F p Hp). split; [exact F|].
   destruct (linkadrreq_roundtrip p F) as [bs [M [_ [_ R]]]]. eauto.
